@@ -39,6 +39,7 @@ theorem invR_step {c : Cfg} {s s' : State} {t : Nat} {l : Label} (hi : InvR s) (
     InvR s' := by
   cases l <;> simp only [step] at h
   case call op => invr_step hi h stepCall
+  case advance d => simp at h; subst h; exact ⟨hi.ok, hi.reg⟩
   case read => invr_step hi h stepRead
   case insMap => invr_step hi h stepInsMap
   case insSub => invr_step hi h stepInsSub
@@ -69,6 +70,16 @@ theorem invR_step {c : Cfg} {s s' : State} {t : Nat} {l : Label} (hi : InvR s) (
       rename_i m expired _
       have := removeKeys_spec c.nShards m.sh t expired s.map
       exact invR_of hi _ rfl this.1 this.2
+    · simp at h
+  case ttiMap vs sent =>
+    unfold stepTtiMap at h
+    split at h
+    · split at h
+      · simp at h; subst h; exact invR_same hi rfl rfl
+      · simp at h; subst h
+        rename_i m _ _
+        have := removeKeys_spec c.nShards m.sh t (expiredOf c s vs) s.map
+        exact invR_of hi _ rfl this.1 this.2
     · simp at h
   case capLoad => invr_step hi h stepCapLoad
   case capEvict v r => invr_step hi h stepCapEvict
